@@ -23,8 +23,8 @@ def nameP : P String := do return nameOf (← nat)
 def namesP : P (List String) := list nameP
 
 def cfgP : P Cfg := do
-  let a ← bool; let b ← bool; let c ← bool; let d ← bool; let e ← bool; let f ← bool
-  pure ⟨a, b, c, d, e, f⟩
+  let a ← bool; let b ← bool; let c ← bool; let d ← bool; let e ← bool; let f ← bool; let g ← bool
+  pure ⟨a, b, c, d, e, f, g⟩
 
 def varP : P Var := do
   let n ← nameP; let ds ← namesP
@@ -34,8 +34,8 @@ def varP : P Var := do
 def topoP : P Topo := list (do let k ← nameP; let v ← namesP; pure (k, v))
 
 def dsP : P (Ds Int) := do
-  let t ← rows; let n ← nat; let ex ← list varP
-  pure { table := t, nodes := (List.range n).map Int.ofNat, extras := ex }
+  let t ← rows; let n ← nat; let ll ← bool; let ex ← list varP
+  pure { table := t, nodes := (List.range n).map Int.ofNat, lonlat := ll, extras := ex }
 
 def fmtP : P Fmt := do
   match (← nat) with
